@@ -54,6 +54,13 @@ NSMAPS = [None, {'svg': NS_SVG, 'html': NS_XHTML, 'x': 'urn:x'}, {'svg': NS_SVG,
 CUSTOM = {':--al': 'a, :is(p, span):not(.x)'}
 
 
+# fixed alternatives over stateful pseudo-classes whose evaluation memoises per-document facts: inside one list they are
+# evaluated by one matcher, alone by separate ones
+STATE_PAIRS = [('input[name="r"]:indeterminate', 'input[name="R"]:indeterminate'), ('input[name="q"]:indeterminate', 'input:indeterminate'),
+               (':default', ':checked'), ('form :default', 'button:default'), (':lang(en)', ':lang(de)'), (':lang("")', ':lang("*")'),
+               (':dir(rtl)', ':dir(ltr)'), (':in-range', ':out-of-range'), (':disabled', ':enabled'), (':read-write', ':placeholder-shown')]
+
+
 def plan(tier, seed):
     n = 96 if tier == 'quick' else 1600
     per = 110 if tier == 'quick' else 300
@@ -122,7 +129,7 @@ def sel_set(sv, sel, doc, ns):
     return frozenset(id(x) for x in c.select(doc))
 
 
-def laws(sv, A, B, X, doc, ns):
+def laws(sv, A, B, X, doc, ns, match_doc=None):
     """Returns (dict law -> bool, info) or raises."""
     S = lambda s: sel_set(sv, s, doc, ns)  # noqa: E731
     U = S('*')
@@ -139,6 +146,31 @@ def laws(sv, A, B, X, doc, ns):
     wh, mt = S(':where(%s)' % A), S(':matches(%s)' % A)
     out = {'union': sab == sa | sb, 'is-union': isab == isa | isb, 'not': nota == U - isa, 'not-list': notab == U - isab,
            'intersection': xisa == x & isa_pred, 'where=is': wh == isa, 'matches=is': mt == isa, 'monotone': sa <= sab and sb <= sab}
+    # a comment (after a blank) before the comma is insignificant
+    def S2(s, want):
+        try:
+            return S(s) == want
+        except monitors.BudgetExceeded:
+            raise
+        except Exception:  # noqa: BLE001 - the canonical spelling compiled, so a rejected respelling is not the union either
+            return False
+    out['comment-before-comma'] = S2('%s /* en */, %s' % (A, B), sab) and S2(':is(%s /* x */ , %s)' % (A, B), isab) and \
+        S2(':not(%s /**/\n, %s)' % (A, B), notab)
+    # forgiving lists: an empty or dangling alternative of :is()/:where() contributes nothing (when it is accepted at all)
+    for junk in ('', 'div >', 'p +', ' '):
+        try:
+            sj = S(':is(%s, %s)' % (junk, A))
+            sw = S(':where(%s , %s)' % (junk, A))
+        except Exception:  # noqa: BLE001
+            continue
+        out['forgiving-list'] = out.get('forgiving-list', True) and sj == isa and sw == isa
+    if match_doc is not None:
+        import bs4
+        sel = '%s, %s' % (A, B)
+        if ':scope' not in sel and '&' not in sel:
+            c = sv.compile(sel, ns, custom=CUSTOM)
+            per = frozenset(id(e) for e in match_doc.descendants if isinstance(e, bs4.Tag) and c.match(e))
+            out['select == per-element match'] = per == sab
     if ns is None or '' not in ns:
         out['is=list'] = isab == sab
     else:
@@ -168,11 +200,27 @@ def run_unit(u):
         A, B, X = render_complex(rng, A_ast), render_complex(rng, B_ast), render_compound(rng, X_ast)
         docs = fixed if i % 3 else fixed + gen_docs(rng)
         for name, d in docs:
+            if name.startswith('gen'):
+                a0, b0 = rng.choice(STATE_PAIRS)
+                try:
+                    with monitors.cpu_budget(30):
+                        out0, info0 = laws(sv, a0, b0, 'input', d, None, d)
+                except Exception:  # noqa: BLE001
+                    out0 = {}
+                res['evals'] += len(out0)
+                cn['state_pair_triples'] = cn.get('state_pair_triples', 0) + 1
+                for law, ok in out0.items():
+                    if not ok:
+                        cn['VIOL'] = cn.get('VIOL', 0) + 1
+                        if len(res['viol']) < 8:
+                            res['viol'].append({'what': 'law %s fails for A=%r B=%r on %s document (sizes %r)' % (law, a0, b0, name, info0), 'law': law,
+                                                'A': a0, 'B': b0, 'X': 'input', 'doc': name, 'nsmap': None, 'markup': trees.describe(d, 3000),
+                                                'selector': a0 + ' | ' + b0, 'xml': bool(getattr(d, 'is_xml', False)), 'class': sig(law, 'state', a0)})
             ns = rng.choice(NSMAPS)
             nsk = 'none' if ns is None else ('default' if '' in ns else 'prefixes')
             try:
                 with monitors.cpu_budget(30):
-                    out, info = laws(sv, A, B, X, d, ns)
+                    out, info = laws(sv, A, B, X, d, ns, d if name.startswith('gen') or i % 7 == 0 else None)
             except monitors.BudgetExceeded:
                 cn['budget'] = cn.get('budget', 0) + 1
                 continue
